@@ -133,7 +133,8 @@ pub fn check_query(c: &QueryCase) -> CaseResult {
                 continue;
             }
             match cm.distances(s, c.class) {
-                Ok(v) => want.extend(v.into_iter().map(|(f, t, a, d)| (f, t, a, d.map(|x| x as i32)))),
+                // (the metric's post-processing sees the results of one track pair at a time)
+                Ok(v) => want.extend(post_keep(v).into_iter().map(|(f, t, a, d)| (f, t, a, d.map(|x| x as i32)))),
                 Err(true) => {}
                 Err(false) => want_errors += 1,
             }
@@ -200,7 +201,7 @@ pub fn check_query(c: &QueryCase) -> CaseResult {
                         continue;
                     }
                     if let Ok(v) = cm.distances(s_, c.class) {
-                        o_want.extend(v.into_iter().map(|(f, t, a, d)| (f, t, a, d.map(|x| x as i32))));
+                        o_want.extend(post_keep(v).into_iter().map(|(f, t, a, d)| (f, t, a, d.map(|x| x as i32))));
                     }
                 }
             }
